@@ -9,11 +9,12 @@ import ast
 from typing import Dict, List, Optional, Set, Tuple
 
 from .. import boolnorm as bn
-from ..cfg import CFG, cond_facts, facts_at, owner_node
+from ..cfg import CFG, assigned_names, cond_facts, facts_at, owner_node
 from ..core import Ctx, RuleReport, rule
 from ..src import AnalysisError, FuncInfo, norm, try_fold, walk_local
 from ..tyeng import has
 from .lexical import single_def
+from ..resolve import ctor_param_unused
 
 
 # ---------------------------------------------------------------------------------------------
@@ -587,6 +588,36 @@ def r58(ctx: Ctx) -> RuleReport:
                       f're-entrant reference to the top is taken for a constant and an inverted role on it is not deinverted')
     else:
         raise AnalysisError(f'R58: the variable set has an unrecognised shape: {src[:80]}')
+    # rearrange(attributes_first=True) tells attributes from edges with the same kind of set
+    rf = ctx.repo.func('penman.layout', 'rearrange')
+    rtp = rf.positional[0]
+    rsets = []
+    for n in walk_local(rf.node):
+        if isinstance(n, ast.Assign) and isinstance(n.targets[0], ast.Name):
+            alts = [n.value.body, n.value.orelse] if isinstance(n.value, ast.IfExp) else [n.value]
+            for a_ in alts:
+                if isinstance(a_, (ast.SetComp, ast.GeneratorExp, ast.ListComp, ast.Call)) and (f'{rtp}.nodes()' in norm(a_) or f'{rtp}.walk()' in norm(a_)):
+                    rsets.append(ast.copy_location(ast.Assign(targets=n.targets, value=a_), n))
+    rkey = 'penman.layout:rearrange: with attributes_first the variable set is {variable of every node in t.nodes()}'
+    for n in rsets:
+        comp = n.value if not isinstance(n.value, ast.Call) else (n.value.args[0] if n.value.args else None)
+        rgood = False
+        if isinstance(comp, (ast.SetComp, ast.GeneratorExp, ast.ListComp)) and len(comp.generators) == 1:
+            g = comp.generators[0]
+            if norm(g.iter) == f'{rtp}.nodes()' and not g.ifs:
+                if isinstance(g.target, ast.Tuple) and isinstance(comp.elt, ast.Name) and norm(g.target.elts[0]) == comp.elt.id:
+                    rgood = True
+                if isinstance(g.target, ast.Name) and norm(comp.elt) == f'{g.target.id}[0]':
+                    rgood = True
+        if rgood:
+            rep.ok(rkey, rf.loc(n), norm(n.value)[:70])
+        elif '.walk()' in norm(n.value):
+            rep.violation(rkey, rf.loc(n), f'`{norm(n.value)[:80]}` collects variables from the branches of the tree: the top node is nobody\'s branch, so a '
+                          f're-entrant reference to the top counts as an attribute and is sorted in front of the edges')
+        else:
+            rep.undecided(rkey, rf.loc(n), norm(n.value)[:80])
+    if not rsets:
+        rep.undecided(rkey, rf.loc(), 'no set built from t.nodes()')
     # _interpret_node passes the same set down unchanged
     inner = ctx.repo.func('penman.layout', '_interpret_node')
     vp = inner.positional[1]
@@ -1128,7 +1159,9 @@ def r73(ctx: Ctx) -> RuleReport:
                     continue
                 for p in missing:
                     fz = frozen.get((fi.fq, callee.fq, p))
-                    if fz:
+                    if t.kind == 'class' and ctor_param_unused(ctx, fi, call, t.cls, p):
+                        rep.add(key, fi.loc(call), 'info', f'`{p}` is left out, but no method called on the new object reads what __init__ derives from it')
+                    elif fz:
                         rep.exception(key, fi.loc(call), fz)
                     else:
                         rep.violation(key + f' omits {p}', fi.loc(call),
@@ -1136,6 +1169,38 @@ def r73(ctx: Ctx) -> RuleReport:
                                       f'({p}=None means the default model / the implicit top / no key ...), so the result is computed in another context than the caller\'s')
     rep.analysed['calls_to_functions_with_optional_parameters'] = n_calls
     return rep
+
+
+def _explicit_raises(ctx: Ctx, fi: FuncInfo, stmts, depth: int = 5) -> Set[str]:
+    """library exception classes raised on purpose by the statements or by what they (resolvably) call"""
+    out: Set[str] = set()
+    seen = set()
+    lib = {c.name for c in ast.walk(ctx.repo.module('penman.exceptions').tree) if isinstance(c, ast.ClassDef)}
+
+    def names_of(exc):
+        if isinstance(exc, ast.Call):
+            exc = exc.func
+        s = norm(exc)
+        return s.rsplit('.', 1)[-1]
+
+    def scan(owner: FuncInfo, nodes, d):
+        for st in nodes:
+            for x in ast.walk(st):
+                if isinstance(x, ast.Raise) and x.exc is not None:
+                    nm = names_of(x.exc)
+                    if nm in lib or nm == 'error':
+                        out.add('DecodeError' if nm == 'error' else nm)
+                elif isinstance(x, ast.Call) and d > 0:
+                    try:
+                        ts = ctx.cg.resolve_call(x, owner)
+                    except Exception:
+                        ts = []
+                    for t in ts:
+                        if t.kind == 'func' and id(t.func) not in seen:
+                            seen.add(id(t.func))
+                            scan(t.func, t.func.node.body, d - 1)
+    scan(fi, stmts, depth)
+    return out
 
 
 @rule('R74', 'no handler catches a blanket exception class: an error is either the documented one or it propagates')
@@ -1152,8 +1217,12 @@ def r74(ctx: Ctx) -> RuleReport:
                 broad = h.type is None or any(t in BROAD for t in types)
                 reraises = any(isinstance(x, ast.Raise) for x in ast.walk(h))
                 if broad and not reraises:
-                    rep.violation(key, fi.loc(h), 'the handler swallows every exception, including the ones that signal a defect (KeyError, AttributeError, '
-                                  'RecursionError ...): a failure is turned into a silently wrong or missing result instead of the documented error')
+                    swallowed = _explicit_raises(ctx, fi, n.body)
+                    if swallowed:
+                        rep.violation(key, fi.loc(h), f'the handler swallows every exception, including {", ".join(sorted(swallowed))} which the guarded '
+                                      f'statements raise on purpose: the documented error is turned into a silently wrong or missing result')
+                    else:
+                        rep.add(key, fi.loc(h), 'info', 'broad handler, but nothing the guarded statements call raises a library error on purpose')
                 elif broad:
                     rep.add(key, fi.loc(h), 'info', 'broad handler that re-raises')
                 else:
@@ -1457,4 +1526,431 @@ def r79(ctx: Ctx) -> RuleReport:
         rep.add(key, fi.loc(decision), 'violation' if narrower is not None else 'undecided',
                 f'triples are reified when {bn.show(got)}; Graph.attributes() returns those with {bn.show(want)}: with {narrower} an attribute is left in the '
                 f'graph, so "reifying attributes leaves no attribute" fails' if narrower is not None else bn.show(got))
+    return rep
+
+
+# ---------------------------------------------------------------------------------------------
+_CHARWISE_CALLS = {'set', 'frozenset', 'list', 'tuple', 'sorted', 'deque'}
+_CHARWISE_METHODS = {'extend', 'update', 'union', 'intersection', 'difference', 'symmetric_difference', 'issubset', 'issuperset',
+                     'difference_update', 'intersection_update', 'extendleft', 'isdisjoint'}
+
+
+def _semantic_string(t) -> bool:
+    """may be one variable / role / constant / atom text (a str that stands for ONE item), and is never a collection"""
+    atoms = {a[0] for a in t}
+    if not atoms & {'Var', 'Role', 'Const', 'Atom', 'str'}:
+        return False
+    return not atoms & {'list', 'set', 'tuple', 'dict', 'iter', 'any', 'inst', 'ext', 'Node', 'Branch', 'Triple'}
+
+
+@rule('R80', 'a variable, role or constant (one string) is never consumed as a collection of its characters')
+def r80(ctx: Ctx) -> RuleReport:
+    rep = RuleReport('R80', r80.title, floor=10)
+    n = 0
+    for fi in ctx.repo.all_functions():
+        for x in walk_local(fi.node):
+            if not isinstance(x, ast.Call):
+                continue
+            arg = None
+            what = None
+            if isinstance(x.func, ast.Name) and x.func.id in _CHARWISE_CALLS and len(x.args) == 1 and not x.keywords:
+                arg, what = x.args[0], f'{x.func.id}(...)'
+            elif isinstance(x.func, ast.Attribute) and x.func.attr in _CHARWISE_METHODS and len(x.args) >= 1:
+                recv = ctx.types.type_of(fi, x.func.value)
+                if {a[0] for a in recv} & {'list', 'set'}:
+                    arg, what = x.args[0], f'.{x.func.attr}(...)'
+            if arg is None:
+                continue
+            n += 1
+            # `a or ()`, `() if c else a`: every alternative that can be chosen is judged
+            alts = []
+
+            def flat(e):
+                if isinstance(e, ast.BoolOp):
+                    for v in e.values:
+                        flat(v)
+                elif isinstance(e, ast.IfExp):
+                    flat(e.body)
+                    flat(e.orelse)
+                else:
+                    alts.append(e)
+            flat(single_def(ctx, fi, arg) if isinstance(arg, ast.Name) else arg)
+            key = f'{fi.module.name}:{fi.qualname}: {norm(x)[:60]}'
+            bad = None
+            for a in alts:
+                if isinstance(a, (ast.Tuple, ast.List, ast.Set, ast.ListComp, ast.SetComp, ast.GeneratorExp, ast.Dict, ast.DictComp)):
+                    continue
+                if isinstance(a, ast.Constant) and not isinstance(a.value, str):
+                    continue
+                t = ctx.types.type_of(fi, a)
+                if _semantic_string(t) and {q[0] for q in t} & {'Var', 'Role', 'Const', 'Atom'}:
+                    bad = (a, t)
+                    break
+            if bad:
+                rep.violation(key, fi.loc(x), f'`{norm(bad[0])}` is one {"/".join(sorted(q[0] for q in bad[1] if q[0] != "none"))} (a string), but {what} takes it apart into '
+                              f'its characters: a name longer than one character is then represented by letters that are not names at all '
+                              f'(a missing comma in `(x)`, extend instead of append, set(x) instead of {{x}})')
+            else:
+                rep.ok(key, fi.loc(x))
+    rep.analysed['collection_consumers'] = n
+    return rep
+
+
+# ---------------------------------------------------------------------------------------------
+def _local_loads(node) -> List[ast.Name]:
+    """Name loads evaluated by this CFG node itself (not by nested function bodies; comprehension variables excluded)."""
+    a = node.ast
+    roots: List[ast.AST] = []
+    if node.kind == 'cond':
+        roots = [a]
+    elif node.kind == 'for':
+        roots = [a.iter]
+    elif node.kind == 'handler':
+        roots = [a.type] if a.type is not None else []
+    elif node.kind == 'stmt':
+        if isinstance(a, (ast.With, ast.AsyncWith)):
+            roots = [it.context_expr for it in a.items]
+        elif isinstance(a, (ast.FunctionDef, ast.AsyncFunctionDef, ast.ClassDef)):
+            roots = list(a.decorator_list) + (list(a.args.defaults) + [d for d in a.args.kw_defaults if d is not None] if not isinstance(a, ast.ClassDef) else list(a.bases))
+        else:
+            roots = [a]
+    out: List[ast.Name] = []
+
+    def walk(x, bound: frozenset):
+        if isinstance(x, (ast.FunctionDef, ast.AsyncFunctionDef, ast.Lambda, ast.ClassDef)):
+            return
+        if isinstance(x, (ast.ListComp, ast.SetComp, ast.GeneratorExp, ast.DictComp)):
+            b = set(bound)
+            for i, g in enumerate(x.generators):
+                walk(g.iter, frozenset(b))
+                b |= {n.id for n in ast.walk(g.target) if isinstance(n, ast.Name)}
+                for c in g.ifs:
+                    walk(c, frozenset(b))
+            for part in ([x.key, x.value] if isinstance(x, ast.DictComp) else [x.elt]):
+                walk(part, frozenset(b))
+            return
+        if isinstance(x, ast.Name):
+            if isinstance(x.ctx, ast.Load) and x.id not in bound:
+                out.append(x)
+            return
+        for c in ast.iter_child_nodes(x):
+            walk(c, bound)
+    for r in roots:
+        if r is not None:
+            walk(r, frozenset())
+    return out
+
+
+@rule('R81', 'no local variable can be read before it was bound (no path ends in UnboundLocalError instead of the documented result or error)')
+def r81(ctx: Ctx) -> RuleReport:
+    from ..cfg import assigned_names
+    rep = RuleReport('R81', r81.title, floor=100)
+    n_reads = 0
+    for fi in ctx.repo.all_functions():
+        try:
+            cfg = CFG(fi.node)
+        except AnalysisError:
+            continue
+        a = fi.node.args
+        params = [x.arg for x in a.posonlyargs + a.args + a.kwonlyargs] + ([a.vararg.arg] if a.vararg else []) + ([a.kwarg.arg] if a.kwarg else [])
+        declared = {nm for x in walk_local(fi.node) if isinstance(x, (ast.Global, ast.Nonlocal)) for nm in x.names}
+        local = set(params)
+        for nd in cfg.nodes:
+            if nd.kind in ('stmt', 'for') and nd.ast is not None:
+                local |= assigned_names(nd.ast)
+            if nd.kind == 'handler' and nd.ast.name:
+                local.add(nd.ast.name)
+        for x in walk_local(fi.node):
+            if isinstance(x, ast.NamedExpr) and isinstance(x.target, ast.Name):
+                local.add(x.target.id)
+        local -= declared
+
+        def transfer(node, label, s):
+            if label == 'exc':
+                return s
+            if node.kind == 'stmt' and isinstance(node.ast, ast.Expr) and isinstance(node.ast.value, ast.Call) \
+                    and norm(node.ast.value.func) in ('sys.exit', 'exit', 'quit', 'os._exit', 'os.abort', 'parser.error', 'parser.exit'):
+                return frozenset(local)         # the call does not return: nothing after it is read on this path
+            if node.kind == 'stmt' and node.ast is not None:
+                s = s | frozenset(assigned_names(node.ast))
+                if isinstance(node.ast, ast.Delete):
+                    s = s - frozenset(t.id for t in node.ast.targets if isinstance(t, ast.Name))
+                return s
+            if node.kind == 'for':
+                if label == 'F' and any(isinstance(x, ast.Call) and norm(x.func) in ('count', 'itertools.count', 'cycle', 'itertools.cycle', 'repeat', 'itertools.repeat')
+                                        and not (norm(x.func).endswith('repeat') and len(x.args) > 1) for x in ast.walk(node.ast.iter)) \
+                        and not any(isinstance(x, ast.Call) and norm(x.func).split('.')[-1] in ('islice', 'takewhile', 'zip') for x in ast.walk(node.ast.iter)):
+                    return frozenset(local)     # an endless iterator is never exhausted: the loop is only left by break / return / raise
+                # lenient: the loop variable counts as bound after the loop as well (the zero-iteration case is the caller's contract)
+                return s | frozenset(assigned_names(node.ast))
+            if node.kind == 'handler' and node.ast.name:
+                return s | frozenset([node.ast.name])
+            if node.kind == 'cond':
+                return s | frozenset(t.target.id for t in ast.walk(node.ast) if isinstance(t, ast.NamedExpr) and isinstance(t.target, ast.Name))
+            return s
+        DA = cfg.forward(frozenset(params), transfer, lambda p, q: p & q)
+        reach = cfg.reachable_from([cfg.entry])
+        before = len(rep.violations())
+        for nd in cfg.nodes:
+            if nd.ast is None or nd.id not in reach or nd.id not in DA:
+                continue
+            for nm in _local_loads(nd):
+                if nm.id not in local:
+                    continue
+                n_reads += 1
+                if nm.id in DA[nd.id]:
+                    continue
+                # AugAssign reads its own target; a statement's own NamedExpr binds before use only in evaluation order - keep simple
+                key = f'{fi.module.name}:{fi.qualname}: {nm.id} is bound when `{norm(nd.ast)[:50]}` reads it'
+                rep.violation(key, fi.loc(nm), f'a path from the entry of {fi.qualname} reaches this read of `{nm.id}` without passing any binding of it: '
+                              f'that call ends in UnboundLocalError, which is neither a result nor the documented error')
+        if len(rep.violations()) == before:
+            rep.ok(f'{fi.module.name}:{fi.qualname}: every read of a local is preceded by a binding on every path', fi.loc())
+    rep.analysed['local_reads'] = n_reads
+    return rep
+
+
+# ---------------------------------------------------------------------------------------------
+@rule('R84', 'surface.alignments / role_alignments examine every marker of a triple (a triple may carry a role alignment, a target alignment and layout markers)')
+def r84(ctx: Ctx) -> RuleReport:
+    from ..resolve import expand, local_callees
+    rep = RuleReport('R84', r84.title, floor=1)
+    roots = [ctx.repo.func('penman.surface', 'alignments'), ctx.repo.func('penman.surface', 'role_alignments')]
+    seen = set()
+    for root in roots:
+        for fi in local_callees(ctx, root, depth=2):
+            if fi.fq in seen or fi.module.name != 'penman.surface':
+                continue
+            seen.add(fi.fq)
+            pm = ctx.repo.parent_map(fi.node)
+            # the per-triple marker lists: values of <g>.epidata
+            outer = [n for n in walk_local(fi.node) if isinstance(n, (ast.For, ast.comprehension)) and '.epidata' in norm(n.iter)]
+            for o in outer:
+                tgt = o.target
+                if not (isinstance(tgt, ast.Tuple) and len(tgt.elts) == 2 and norm(o.iter).endswith('.epidata.items()')):
+                    rep.undecided(f'{fi.fq}: the marker lists are read with `for triple, markers in g.epidata.items()`', fi.loc(o if isinstance(o, ast.For) else fi.node), norm(o.iter))
+                    continue
+                tv, mv = norm(tgt.elts[0]), norm(tgt.elts[1])
+                scope = o if isinstance(o, ast.For) else pm.get(id(o))
+                stores = [n for n in ast.walk(scope) if isinstance(n, ast.Assign) and isinstance(n.targets[0], ast.Subscript) and norm(n.targets[0].slice) == tv]
+                comps = [scope] if isinstance(scope, ast.DictComp) else []
+                key = f'{fi.fq}: every marker of a triple is examined'
+                fixed = [n for n in ast.walk(scope) if isinstance(n, ast.Subscript) and norm(n.value) == mv and not isinstance(n.slice, ast.Slice)]
+                scans = [n for n in ast.walk(scope) if isinstance(n, (ast.For, ast.comprehension)) and norm(n.iter) == mv]
+                early = [b for sc in scans if isinstance(sc, ast.For) for b in ast.walk(sc) if isinstance(b, ast.Break)]
+                if fixed and not scans:
+                    rep.violation(key, fi.loc(fixed[0]), f'only `{norm(fixed[0])}` is looked at: the marker list of a triple has no fixed layout (a branch such as '
+                                  f'`:polarity~e.1 -~e.2` carries a role alignment and a target alignment, then Push/POP), so an alignment at another position is not reported')
+                elif scans:
+                    rep.ok(key, fi.loc(scans[0] if isinstance(scans[0], ast.For) else fi.node), f'loop over {mv}' + (' (stops at the first match)' if early else ''))
+                else:
+                    rep.undecided(key, fi.loc(fi.node), f'no loop over {mv}')
+    return rep
+
+
+# ---------------------------------------------------------------------------------------------
+@rule('R85', 'the default variable prefix is the first alphabetic character of the concept in the sense of str.isalpha (any script)')
+def r85(ctx: Ctx) -> RuleReport:
+    from ..rx import CS, Lang, MAXCP
+    rep = RuleReport('R85', r85.title, floor=1)
+    fi = ctx.repo.func('penman.tree', '_default_variable_prefix')
+    key = f'{fi.fq}: a character counts as a letter exactly when str.isalpha() says so'
+    calls = [n for n in walk_local(fi.node) if isinstance(n, ast.Call) and isinstance(n.func, ast.Attribute)]
+    alpha_calls = [c for c in calls if c.func.attr == 'isalpha' and not c.args]
+    other_preds = [c for c in calls if c.func.attr in ('isalnum', 'isascii', 'islower', 'isupper', 'isidentifier', 'isdigit', 'isnumeric', 'istitle') and not c.args]
+    rx_calls = [c for c in calls if c.func.attr in ('search', 'match', 'fullmatch', 'findall', 'finditer')]
+    if alpha_calls and not rx_calls:
+        rep.ok(key, fi.loc(alpha_calls[0]), norm(alpha_calls[0]))
+        if other_preds:
+            rep.violation(key + f' ({norm(other_preds[0])})', fi.loc(other_preds[0]), f'`{norm(other_preds[0])}` also takes part in the choice: it differs from isalpha() on some characters, '
+                          f'so some concept gets the prefix of another character than its first letter')
+        return rep
+    if other_preds and not rx_calls:
+        rep.violation(key, fi.loc(other_preds[0]), f'the letter test is `{norm(other_preds[0])}`, which is not str.isalpha(): digits, or only ASCII / only lower-case letters, are '
+                      f'(not) taken, so the prefix is not the first alphabetic character')
+        return rep
+    decided = False
+    for c in rx_calls:
+        pat = flags = None
+        if isinstance(c.func.value, ast.Name) and c.func.value.id == 're' and c.args:
+            okp, pat = fold_in_any(ctx, fi, c.args[0])
+            flags = 0
+            for k in c.keywords:
+                if k.arg == 'flags':
+                    okf, flags = fold_in_any(ctx, fi, k.value)
+        else:
+            pat, flags = _regex_of(ctx, fi, c.func.value)
+        if not isinstance(pat, str):
+            continue
+        import re as _re
+        try:
+            width = _re._parser.parse(pat, int(flags or 0)).getwidth()
+            crx = _re.compile(pat, int(flags or 0))
+        except Exception as e:       # noqa
+            rep.undecided(key, fi.loc(c), f'pattern {pat!r} does not compile: {e}')
+            decided = True
+            continue
+        if tuple(width) != (1, 1):
+            rep.undecided(key, fi.loc(c), f'pattern {pat!r} does not match exactly one character (width {width})')
+            decided = True
+            continue
+
+        def as_cs(pred):
+            iv, start = [], None
+            for cp_ in range(MAXCP + 1):
+                ok = pred(chr(cp_))
+                if ok and start is None:
+                    start = cp_
+                elif not ok and start is not None:
+                    iv.append((start, cp_ - 1)); start = None
+            if start is not None:
+                iv.append((start, MAXCP))
+            return CS(iv)
+        # the constant pattern is evaluated on every code point (constant folding of the regex, penman itself is not run)
+        got = as_cs(lambda ch: crx.fullmatch(ch) is not None)
+        want = as_cs(str.isalpha)
+        decided = True
+        if got == want:
+            rep.ok(key, fi.loc(c), f'pattern {pat!r}')
+        else:
+            miss, extra = want - got, got - want
+            w = (miss or extra).sample()
+            rep.violation(key, fi.loc(c), f'the letter is found with the pattern {pat!r}, whose single characters are not the alphabetic ones: {w!r} (U+{ord(w):04X}) is '
+                          + ('a letter the pattern does not accept' if miss else 'accepted but not a letter') +
+                          ': a concept that begins with it gets the prefix of a later character (or "_"), so the new names are not the ones documented')
+    if not decided:
+        rep.undecided(key, fi.loc(), 'neither .isalpha() nor a constant pattern')
+    return rep
+
+
+def _regex_of(ctx, fi, e):
+    """(pattern, flags) of an expression that denotes a compiled pattern: re.compile(...) inline, a local or a module-level name bound to it"""
+    import re as _re
+    if isinstance(e, ast.Name):
+        d = single_def(ctx, fi, e)
+        if d is e:
+            d = fi.module.constants.get(e.id)
+        e = d
+    if not (isinstance(e, ast.Call) and norm(e.func) in ('re.compile', 'compile') and e.args):
+        return None, None
+    okp, pat = fold_in_any(ctx, fi, e.args[0])
+    fl = 0
+    fx = e.args[1] if len(e.args) > 1 else next((k.value for k in e.keywords if k.arg == 'flags'), None)
+    if fx is not None:
+        for x in ast.walk(fx):
+            if isinstance(x, ast.Attribute) and hasattr(_re, x.attr) and isinstance(getattr(_re, x.attr), int):
+                fl |= int(getattr(_re, x.attr))
+            elif isinstance(x, ast.Constant) and isinstance(x.value, int):
+                fl |= x.value
+    return (pat if okp else None), fl
+
+
+def fold_in_any(ctx, fi, e):
+    from ..resolve import fold_in
+    try:
+        return fold_in(ctx, fi, e)
+    except Exception:
+        return False, None
+
+
+# ---------------------------------------------------------------------------------------------
+_CONSUMERS = {'list', 'tuple', 'set', 'frozenset', 'sorted', 'sum', 'min', 'max', 'any', 'all', 'enumerate', 'zip', 'map', 'filter',
+              'reversed', 'dict', 'Counter', 'deque', 'chain', 'islice', 'tee', 'join'}
+
+
+@rule('R86', 'an argument that may be a one-shot iterable (a file, a generator of lines or of graphs) is walked at most once')
+def r86(ctx: Ctx) -> RuleReport:
+    rep = RuleReport('R86', r86.title, floor=5)
+    for fi in ctx.repo.all_functions():
+        a = fi.node.args
+        cands = []
+        for arg in a.posonlyargs + a.args + a.kwonlyargs:
+            ann = norm(arg.annotation) if arg.annotation is not None else ''
+            if any(w in ann for w in ('Iterable[', 'Iterator[', 'FileOrFilename', 'IO[', 'TextIO', 'Generator[')):
+                cands.append(arg.arg)
+        if not cands:
+            continue
+        try:
+            cfg = CFG(fi.node)
+        except AnalysisError:
+            continue
+        pm = ctx.repo.parent_map(fi.node)
+        for p in cands:
+            # consumption sites: CFG node -> description
+            sites: Dict[int, str] = {}
+            for x in walk_local(fi.node):
+                if not (isinstance(x, ast.Name) and x.id == p and isinstance(x.ctx, ast.Load)):
+                    continue
+                par = pm.get(id(x))
+                how = None
+                if isinstance(par, (ast.For, ast.AsyncFor)) and par.iter is x:
+                    how = f'for ... in {p}'
+                elif isinstance(par, ast.comprehension) and par.iter is x:
+                    how = f'comprehension over {p}'
+                elif isinstance(par, ast.Call) and (x in par.args or any(k.value is x for k in par.keywords)):
+                    fn = par.func
+                    nm = fn.id if isinstance(fn, ast.Name) else (fn.attr if isinstance(fn, ast.Attribute) else '')
+                    resolved = [t for t in ctx.cg.resolve_call(par, fi) if t.kind in ('func', 'class')]
+                    if nm in _CONSUMERS or resolved:
+                        how = f'{norm(fn)}({p})'
+                elif isinstance(par, ast.YieldFrom):
+                    how = f'yield from {p}'
+                elif isinstance(par, ast.Starred):
+                    how = f'*{p}'
+                if how:
+                    try:
+                        sites[owner_node(cfg, pm, x)] = how
+                    except Exception:
+                        pass
+            if not sites:
+                continue
+            key = f'{fi.module.name}:{fi.qualname}: `{p}` is walked at most once on every path'
+            strfacts = {(f'isinstance({p}, str)', True), (f'isinstance({p}, (str, Path))', True), (f'isinstance({p}, (str, bytes))', True)}
+
+            def walk_from(starts):
+                """CFG nodes reachable from the given out-edges while `p` still denotes the caller's object and may be a one-shot iterable"""
+                seen, stack = set(), list(starts)
+                while stack:
+                    n = stack.pop()
+                    if n in seen:
+                        continue
+                    seen.add(n)
+                    node = cfg.nodes[n]
+                    if node.kind in ('stmt', 'for') and node.ast is not None and p in assigned_names(node.ast) and n not in sites:
+                        continue                    # re-bound (e.g. to the list of lines)
+                    for m, lab in cfg.succ[n]:
+                        if lab == 'exc' or m == cfg.rexit:
+                            continue
+                        if node.kind == 'cond' and (norm(node.ast), lab == 'T') in strfacts:
+                            continue                # a str can be walked any number of times
+                        stack.append(m)
+                return seen
+            twice = None
+            for nid, how in sites.items():
+                node = cfg.nodes[nid]
+                if node.kind == 'stmt' and node.ast is not None and p in assigned_names(node.ast):
+                    continue                        # `lines = list(lines)`: later walks see the copy
+                if node.kind == 'for':
+                    after = walk_from([m for m, lab in cfg.succ[nid] if lab == 'F'] + [m for m, lab in cfg.succ[nid] if lab is None])
+                    # breaks leave the loop as well
+                    body = walk_from([m for m, lab in cfg.succ[nid] if lab == 'T'])
+                    others = {x for x in sites if x != nid}
+                    hit = (after | body) & others
+                    if nid in after:
+                        twice = (nid, how + ' (the loop itself is inside another loop)')
+                        break
+                else:
+                    after = walk_from([m for m, lab in cfg.succ[nid]])
+                    hit = after & set(sites)
+                if hit:
+                    h = sorted(hit)[0]
+                    twice = (h, sites[h]) if h != nid else (nid, how + ' inside a loop')
+                    first_how = how
+                    break
+            if twice:
+                first = first_how if 'first_how' in dir() else twice[1]
+                rep.violation(key, fi.loc(cfg.nodes[twice[0]].ast), f'`{twice[1]}` can run after `{first}` already walked `{p}`: when the caller passes a file object or a generator, '
+                              f'the second walk finds it exhausted and the graphs silently disappear (a str or a list would hide this)')
+            else:
+                rep.ok(key, fi.loc(), ', '.join(sorted(set(sites.values()))))
     return rep
